@@ -1753,6 +1753,13 @@ def run_C15(pid, tier, seed, model_ok=True):
         for h in impl:
             for l in impl[h]:
                 seen.add(l.split(' ')[0][4:])
+        # shorebird_update_with_result always hands out a result struct (callers read its status without a null check)
+        for h, ops_ in hs:
+            for j, l in enumerate(impl.get(h, [])):
+                o_ = l.split(' ')[0][4:]
+                if 'NULLRESULT' in o_ or ':nomsg' in o_:
+                    fails.append((h, j, 'C15: shorebird_update_with_result returned %s for `%s` (an owned result with status -1 and a message is the contract)' % (
+                        'NULL' if 'NULLRESULT' in o_ else 'an error status without a message', ops_[j] if j < len(ops_) else '?'), ops_, ctx.header()))
         for code in ('-1', '0', '1', '3'):
             if code not in seen:
                 fails.append(('codes', 0, 'C15: status %s was not delivered through the C API by the scenario that should produce it' % code, hs[0][1], ctx.header()))
